@@ -3,7 +3,7 @@ from mirsym.harness import Check
 from . import scen
 from .C01 import ASSUME
 
-TREES = ["seq2", "two_if", "nested", "catch_act", "catch_step", "catch_two_codes", "catch_nomatch_then_step", "needs", "step_if", "catch_in_catch", "catch_multi_step", "step_next", "outs_act", "init_err_own_catch"]
+TREES = ["seq2", "two_if", "nested", "catch_act", "catch_step", "catch_two_codes", "catch_nomatch_then_step", "needs", "step_if", "catch_in_catch", "catch_multi_step", "step_next", "outs_act", "init_err_own_catch", "branches_and_acts"]
 
 
 def main(tier, seed):
